@@ -29,6 +29,10 @@ inductive Rel where
 
 def Rel.all : List Rel := [.lt, .eq, .gt, .un]
 
+/-- the relation with the operands exchanged -/
+def Rel.swap : Rel → Rel
+  | .lt => .gt | .gt => .lt | r => r
+
 /-- what a floating-point datum denotes -/
 inductive Val where
   | nan
@@ -250,6 +254,37 @@ theorem Val.cmp_zero_un (v : Val) (n : Bool) (e : Int) : (Val.cmp v (.fin n 0 e)
   | fin s m e1 =>
     simp only [Val.cmp, Val.isNaN]
     split <;> (try split) <;> simp
+
+/-- exchanging the operands of a comparison exchanges `<` and `>` -/
+theorem Val.cmp_swap (a b : Val) : Val.cmp a b = (Val.cmp b a).swap := by
+  cases a with
+  | nan => cases b <;> simp [Val.cmp, Rel.swap]
+  | inf s =>
+    cases b with
+    | nan => simp [Val.cmp, Rel.swap]
+    | inf t => cases s <;> cases t <;> simp [Val.cmp, Rel.swap]
+    | fin t m e => cases s <;> simp [Val.cmp, Rel.swap]
+  | fin s m e =>
+    cases b with
+    | nan => simp [Val.cmp, Rel.swap]
+    | inf t => cases t <;> simp [Val.cmp, Rel.swap]
+    | fin t m2 e2 =>
+      simp only [Val.cmp]
+      rw [Int.min_comm e2 e]
+      generalize Val.scaled s m e (min e e2) = x
+      generalize Val.scaled t m2 e2 (min e e2) = y
+      by_cases h1 : x < y
+      · have h2 : ¬ y < x := by omega
+        have h3 : ¬ y = x := by omega
+        simp [h1, h2, h3, Rel.swap]
+      · by_cases h4 : x = y
+        · subst h4; simp [Rel.swap]
+        · have h5 : y < x := by omega
+          simp [h1, h4, h5, Rel.swap]
+
+theorem Val.cmp_zero_left_eq (v : Val) (n : Bool) (e : Int) : (Val.cmp (.fin n 0 e) v = .eq) = (v.isZero = true) := by
+  rw [Val.cmp_swap, ← Val.cmp_zero_eq v n e]
+  cases Val.cmp v (.fin n 0 e) <;> simp [Rel.swap]
 
 /-! ### IEEE-754 / x87 decoding of bit patterns (SDM vol. 1 §4.8)
 
